@@ -657,6 +657,99 @@ def stack_boundary_scripts(R):
     return out
 
 
+def stack_concurrent_scripts():
+    """an established observation plus one or two further requests of the application, to the observation's peer or
+    to another one, registered later and still outstanding -- or registered BEFORE the observing request, which then
+    is the newest entry -- when the transport reports an error for the observation's peer / for the other peer, when
+    a confirmable request to either runs out of retransmissions, or when one of them is answered with a Reset; then a
+    confirmable notification on the observation's token (rejected after the end, delivered otherwise)"""
+    out = []
+    SEC = 1 << 20
+
+    def other(t, r, rem, rel, mr=4):
+        return ["S", t, r, rem, False, False, None, rel, 1, None, 0, mr]
+
+    for obs_first in (True, False):
+        tok = c07_stack.TOKEN if obs_first else "22"
+        omid = c07_stack.REQ_MID if obs_first else c07_stack.REQ_MID + 1
+        m1 = c07_stack.REQ_MID + 1 if obs_first else c07_stack.REQ_MID
+        for rem1 in (0, 1):
+            for rel1 in (True, False):
+                for second in (None, 0, 1):
+                    for fail in ("E0", "E1", "TO", "RST1", "E0-before-first"):
+                        if fail in ("TO", "RST1") and not rel1:
+                            continue
+                        if fail == "E0-before-first" and second is not None:
+                            continue
+                        # (odd offsets: no input at the tick of a retransmission timer)
+                        S0 = ["S", 0 if obs_first else 2 * SEC + 3, 0, 0, False, True, None, True, 1, None, 0, 4]
+                        t1 = 9 * SEC + 5 if obs_first else 0
+                        # time-out: 2 s + 4 s after 9 s / 2 s + 4 s + 8 s after 0 s
+                        evs = [S0, other(t1, 1, rem1, rel1, (1 if obs_first else 2) if fail == "TO" else 4)]
+                        if rel1 and fail != "TO":
+                            evs.append(["R", t1 + SEC // 2, rem1, False, "ACK", 0, m1, "-", None, 0])   # empty ACK: stays outstanding
+                        if fail != "E0-before-first":
+                            evs.append(["R", 3 * SEC, 0, False, "ACK", 69, omid, tok, 5, 1])
+                            evs.append(["R", 7 * SEC, 0, False, "NON", 69, 300, tok, 6, 2])
+                        if second is not None:
+                            evs.append(other(11 * SEC + 7, 2, second, False))
+                        tf = 15 * SEC
+                        if fail in ("E0", "E0-before-first"):
+                            evs.append(["E", tf, 0])
+                        elif fail == "E1":
+                            evs.append(["E", tf, 1])
+                        elif fail == "RST1":
+                            evs.append(["R", tf, rem1, False, "RST", 0, m1, "-", None, 0])
+                        # (time-out: request 1, confirmable with MAX_RETRANSMIT 1 / 2, is never acknowledged)
+                        evs.append(["A", 19 * SEC])
+                        evs.append(["R", 20 * SEC, 0, False, "CON", 69, 301, tok, 7, 3])
+                        evs.append(["R", 22 * SEC, 0, False, "NON", 69, 302, tok, 8, 4])
+                        evs.append(["A", 40 * SEC])
+                        evs.sort(key=lambda e: e[1])
+                        for cons in (None, {"work": 0}):
+                            sc = {"events": evs, "rules": [], "draws": [], "mid": c07_stack.REQ_MID, "token": 32,
+                                  "obs_token": tok, "obs_mid": omid, "family": "concurrent:" + fail}
+                            if cons is not None:
+                                if (len(out) // 3) % 4:
+                                    continue
+                                sc["consumer"] = cons
+                            out.append(sc)
+    return out
+
+
+STACK_TUNINGS = ["class", "library-class", ["reset", 60], ["reset", 200], ["class-reset", 60]]
+
+
+def stack_tuning_scripts(R):
+    """the observing request's transport tuning passed the way applications do (as a class -- the harness's, or
+    aiocoap.Reliable / aiocoap.Unreliable --, with OBSERVATION_RESET_TIME set) x CON / NON notifications that are
+    reordered, duplicated, renumbered after the reset time that applies / exactly at it; then the final response"""
+    TOK = c07_stack.TOKEN
+    out = []
+    for kind in STACK_TUNINGS:
+        Rk = c07_pipe.tuned_reset_ticks(kind, R)
+        for rel in (True, False):
+            for mt in ("CON", "NON"):
+                for cons in (None, {"work": 3}):
+                    t = 3
+                    evs = [["S", 0, 0, 0, False, True, None, rel, 1, None, 0, 4],
+                           ["R", t, 0, False, "ACK" if rel else "NON", 69, c07_stack.REQ_MID if rel else 299, TOK, 10, 1]]
+                    mid = 300
+                    for i, (v, g) in enumerate([(12, 5), (11, 5), (12, 5), (13, 5), (5, Rk + 1), (6, 5), (3, Rk), (7, 9)]):
+                        t += g
+                        evs.append(["R", t, 0, False, mt, 69, mid, TOK, v, 2 + i])
+                        mid += 1
+                    evs.append(["R", t + 5, 0, False, mt, 132, mid, TOK, None, 50])
+                    evs.append(["R", t + 9, 0, False, "CON", 69, mid + 1, TOK, 14, 51])
+                    evs.append(["A", t + 40])
+                    sc = {"events": evs, "rules": [], "draws": [], "mid": c07_stack.REQ_MID, "token": 32,
+                          "tuning0": kind, "family": "tuning"}
+                    if cons:
+                        sc["consumer"] = cons
+                    out.append(sc)
+    return out
+
+
 def strip_pipe_events(line):
     """the pipe events of request 0 are what the runner consumes (C02 compares them); the
     harness's own listener on the pipe misses the event during which the pipe ends"""
@@ -674,6 +767,8 @@ def run_level_b(env, rep, R):
     scripts += bnd
     scripts += stack_cancel_first_scripts()
     scripts += stack_audit_scripts()
+    scripts += stack_concurrent_scripts()
+    scripts += stack_tuning_scripts(R)
     for first in ("piggy", "sep", "noobs", "rst", "err", "shutdown", "cancel",
                   "oc+piggy", "oc+sep", "oc+noobs", "oc+rst", "oc+err", "oc+shutdown"):
         scripts += [stack_script(env.rng, R, forced=first) for _ in range(env.scale(6, 100))]
@@ -711,7 +806,7 @@ def run_level_b(env, rep, R):
             rep.count("b:event=" + k + (":" + tok.split(":")[3] if k == "R" else ""))
         for tok in (res.get("iter") or []):
             rep.count("b:consumer-saw=" + tok.split(":")[0])
-        for e in ("NotObservable", "ObservationCancelled", "T0", "T2", "T3"):
+        for e in ("NotObservable", "ObservationCancelled", "T0", "T1", "T2", "T3"):
             if ":eb:" + e in res["impl_line"]:
                 rep.count("b:end=" + e)
         v, key = c07_stack.oracle_stack(sc, res)
@@ -720,7 +815,14 @@ def run_level_b(env, rep, R):
         if res["same_tick_inputs"]:
             rep.count("b:discarded:same-tick-inputs")
             continue
-        lines.append(f"C07 J {R} 1 " + " ".join(res["args"]))
+        if sc.get("family"):
+            rep.count("b:family=" + sc["family"])
+            if sc["family"].startswith("concurrent") and sc.get("obs_token") != c07_stack.TOKEN:
+                rep.count("b:observation-is-newest-entry")
+        if sc.get("tuning0"):
+            k = sc["tuning0"]
+            rep.count("b:tuning=" + (k if isinstance(k, str) else "%s:%d" % tuple(k)))
+        lines.append(f"C07 J {c07_pipe.tuned_reset_ticks(sc.get('tuning0'), R)} 1 " + " ".join(res["args"]))
         impl.append(strip_pipe_events(res["impl_line"]))
         cases.append(case)
     outs = env.lean(lines)
@@ -949,6 +1051,34 @@ def app_concurrent_cases():
     return out
 
 
+def app_cancel_cases():
+    """the application cancels the observation itself -- before the first response, the moment the response is
+    complete (`await request.response; request.observation.cancel()`), between notifications -- and the server goes
+    on notifying / ends the observation: the token is given up; and late notifications after every kind of end"""
+    out = []
+    notifs = [["M", 69, 10, 1], ["M", 69, 11, 2], ["M", 69, 12, 3], ["M", 69, 13, 4], ["M", 69, 14, 5]]
+    tails = (notifs, notifs[:3] + [["M", 132, None, 4], ["M", 69, 14, 5]], notifs[:2] + [["X", 2], ["M", 69, 14, 5]])
+    for bw in (False, True):
+        for cons, op, work in (("callbacks", 0, 0), ("iter", 0, 0)):
+            for gaps in ((3, 3, 3, 3, 3), (3, 0, 0, 0, 0), (0, 0, 0, 0, 0), (3, 0, 1, 3, 3)):
+                for script in tails:
+                    if cons != "callbacks":
+                        break     # (what an iteration over an observation its application cancelled does is not claimed)
+                    arr = [[g] + a for g, a in zip(gaps, script)]
+                    for oc in (0, 1, 2):
+                        out.append({"blockwise": bw, "consumer": cons, "open": op, "work": work, "oc": oc,
+                                    "arrivals": arr})
+                    out.append({"blockwise": bw, "consumer": cons, "open": op, "work": work,
+                                "cancel_on_response": True, "arrivals": arr})
+            for end in (["M", 132, None, 3], ["M", 69, None, 3], ["M", 160, 20, 3], ["X", 1], ["X", 2], ["X", 0]):
+                out.append({"blockwise": bw, "consumer": cons, "open": op, "work": work,
+                            "arrivals": [[3] + a for a in notifs[:2] + [end] + notifs[2:]]})
+            for first in (["M", 69, None, 1], ["M", 132, 5, 1], ["X", 2], ["X", 0]):
+                out.append({"blockwise": bw, "consumer": cons, "open": op, "work": work,
+                            "arrivals": [[3] + a for a in [first] + notifs[1:4]]})
+    return out
+
+
 def app_tuning_cases(R):
     """the request's transport tuning (c07_pipe.TUNINGS) x reordered / duplicated / renumbered notifications on a
     clock, with gaps around the reset time that applies; both APIs, callbacks and iteration"""
@@ -977,6 +1107,7 @@ def level_c_cases(env, R):
     out = [c["app"] for _, c in load_corpus("C07") if "app" in c]
     out += app_concurrent_cases()
     out += app_tuning_cases(R)
+    out += app_cancel_cases()
     for bw in (False, True):
         for cons, op, work in APP_CONSUMERS:
             for gaps in APP_GAPS:
@@ -1090,6 +1221,12 @@ async def run_level_c(env, rep, aiocoap, R):
             rep.count("c:cancel-in-callback" + (":hit" if ("item", sc["cancel_at"]) in res["seen"] else ""))
         if any(a[1] == "M" and a[3] is not None and not 64 <= a[2] < 96 for a in sc["arrivals"]):
             rep.count("c:non-2.xx-with-observe")
+        if sc.get("oc") is not None or sc.get("cancel_on_response"):
+            rep.count("c:application-cancels:" + ("on-response" if sc.get("cancel_on_response") else
+                                                  "before-first" if sc["oc"] == 0 else "later") +
+                      (":blockwise" if sc["blockwise"] else ":plain"))
+        if any(ok is False for _, ok in res["matched"]):
+            rep.count("c:late-arrival-rejected")
         if sc.get("tuning") is not None:
             k = sc["tuning"]
             rep.count("c:tuning=" + (k if isinstance(k, str) else "%s:%d" % tuple(k)))
@@ -1146,6 +1283,24 @@ async def run_level_d(env, rep, aiocoap):
             rep.count("d:response-cancelled-during-first-body")
         if sc.get("cancel_at") is not None and ("item", 69, sc["cancel_at"]) in res["seen"]:
             rep.count("d:cancel-in-callback:hit")
+        if ("oc",) in res["seen"]:
+            rep.count("d:application-cancels:" + ("on-response" if sc.get("cancel_on_response") else
+                                                  "before-first" if st and st[0] == ["OC"] else
+                                                  "during-first-body" if not any(e[0] == "B" for e in
+                                                  res["served"][:res["served"].index(("OC",))]) and sc["reps"][0][0] > 1
+                                                  else "later"))
+        if any(ok is False for _, ok in res["matched"]):
+            rep.count("d:late-arrival-rejected")
+        if sc.get("tuning") is not None:
+            k = sc["tuning"]
+            rep.count("d:tuning=" + (k if isinstance(k, str) else "%s:%d" % tuple(k)))
+        if res["others"]:
+            for e in res["served"]:
+                if e[0] == "X" or (e[0] == "B" and e[3] == "neterr"):
+                    rep.count("d:transport-failure-with-other-requests:" +
+                              ("other-peer" if e[0] == "X" and len(e) > 2 and e[2] else "observed-peer"))
+            if any(x[0] == "O" and x[1] == -1 for x in st):
+                rep.count("d:observation-is-newest-entry")
         v, key = c07_bw.oracle(sc, res)
         if v:
             rep.oracle_fail(case, v, key=key)
@@ -1164,11 +1319,22 @@ def run(env, rep):
         R = bench.reset_ticks()
         fams = level_a_cases(env, R)
         loop = asyncio.new_event_loop()
+        import time as _time
+        marks = [_time.time()]
+
+        def mark(name):
+            marks.append(_time.time())
+            rep.notes.append("level %s: %.1f s" % (name, marks[-1] - marks[-2]))
+
         try:
             loop.run_until_complete(run_level_a(env, rep, bench, R, fams))
+            mark("a")
             loop.run_until_complete(run_level_i(env, rep, aiocoap))
+            mark("i")
             loop.run_until_complete(run_level_c(env, rep, aiocoap, R))
+            mark("c")
             loop.run_until_complete(run_level_d(env, rep, aiocoap))
+            mark("d")
         finally:
             loop.close()
     finally:
@@ -1203,7 +1369,24 @@ def run(env, rep):
             "b:errback-cancels:NotObservable", "b:errback-cancels:ObservationCancelled",
             "b:response-cancelled-before-first:consumer", "b:non-2.xx-with-observe",
             "b:cancel-before-first", "b:consumer=busy", "b:end=NotObservable", "b:end=ObservationCancelled", "b:end=T2", "b:end=T3",
-            "b:rst-sent", "b:ack-sent", "b:event=R:CON", "b:event=R:NON", "b:callbacks"]
+            "b:rst-sent", "b:ack-sent", "b:event=R:CON", "b:event=R:NON", "b:callbacks",
+            # round 4: transport tuning as passed by applications; other requests outstanding at a transport failure;
+            # the application cancelling the observation itself; late arrivals on the token
+            "a:family=tuning", "a:tuning=Reliable", "a:tuning=Unreliable", "a:tuning=subclass", "a:tuning=reset:60",
+            "a:tuning=class-reset:60", "a:tuning=latency",
+            "b:family=tuning", "b:tuning=library-class", "b:tuning=class", "b:tuning=reset:60", "b:tuning=class-reset:60",
+            "b:family=concurrent:E0", "b:family=concurrent:E1", "b:family=concurrent:TO", "b:family=concurrent:RST1",
+            "b:observation-is-newest-entry", "b:end=T1",
+            "c:tuning=Reliable", "c:tuning=Unreliable", "c:tuning=reset:60", "c:tuning=class-reset:60",
+            "c:transport-failure-with-other-requests:observed-peer", "c:transport-failure-with-other-requests:other-peer",
+            "c:observation-is-newest-entry", "c:other-request=pending", "c:other-request=raise",
+            "c:application-cancels:on-response:blockwise", "c:application-cancels:on-response:plain",
+            "c:application-cancels:before-first:blockwise", "c:application-cancels:later:blockwise",
+            "c:late-arrival-rejected",
+            "d:tuning=Reliable", "d:tuning=Unreliable", "d:transport-failure-with-other-requests:observed-peer",
+            "d:transport-failure-with-other-requests:other-peer", "d:observation-is-newest-entry",
+            "d:application-cancels:on-response", "d:application-cancels:before-first",
+            "d:application-cancels:during-first-body", "d:application-cancels:later", "d:late-arrival-rejected"]
     missing = [k for k in need if not rep.hist.get(k)]
     if missing and not (rep.oracle_failures or rep.disagreements):
         # (several of these are counted on what the implementation did: when it misbehaves the
